@@ -11,6 +11,51 @@ SCHED_NOTE = ("Trusted: Lean kernel + propext/Quot.sound/Classical.choice; the h
               "Event resolution is outside this model (C03); floats of the implementation are compared, not proved.")
 
 CHECKS = {
+    "C01": dict(
+        text="Theorems for every tick resolution q, every stream of durations >= 1 tick (on/off grid), every run length, from any "
+             "playing state: event k is performed on exactly the first tick at or after its exact ideal time (closed form, = "
+             "start + ceil(S_k/q) from a start); error in [0,q) independent of k (no drift); tick depends on the ideal time alone "
+             "(rounding never accumulates); nudge shifts every later ideal time by exactly x. Correspondence incl. long runs.",
+        design="DESIGN.md §3 C01",
+        note=SCHED_NOTE + " The theorems are about the clock part of Track.tick (pull loop + time increment); the float "
+             "accumulation of the implementation is outside the model and shows only in the long correspondence runs "
+             "(known finding C01-float-drift).",
+        technique="Lean 4 induction (onset invariant) + closed-form oracle in exact rationals + differential correspondence"),
+    "C05": dict(
+        text="Theorems: the scheduled start time is the first grid point at or after the call time plus delay (on-grid counts as "
+             "quantized, quantize 0 = call time), fires on the first tick at or after it; explicit args override defaults, latency "
+             "is added; a deferred update leaves the old stream untouched and queues one start; start keeps sounding notes; the "
+             "last of several due starts wins. Correspondence on histories + exact grid oracle.",
+        design="DESIGN.md §3 C05",
+        note=SCHED_NOTE + " In-callback calls are covered by the correspondence against the model (which mirrors the phase order), not by a separate theorem.",
+        technique="Lean 4 arithmetic/decision-logic theorems + exact grid oracle + differential correspondence"),
+    "C06": dict(
+        text="Theorems: count never passes a non-zero limit and each pulled event counts once; exhaustion is sticky and consumes "
+             "nothing; finished iff StopIteration caught with nothing sounding; removal iff finished and remove-when-done; "
+             "StopIteration from tick() iff no track and no pending start and stop-when-done (never when off); refused schedule "
+             "changes nothing; no API call takes the track count past a non-zero limit; named replace does not grow the list; "
+             "removed/muted tracks emit nothing.",
+        design="DESIGN.md §3 C06",
+        note=SCHED_NOTE + " len<=max is proved per API call (incl. calls made from callbacks), not yet as one invariant over whole histories.",
+        technique="Lean 4 decision-logic / invariant theorems + differential correspondence"),
+    "C07": dict(
+        text="Theorems: the calls of one tick are all due note-offs of all tracks (track order) followed by the event phase in "
+             "snapshot order. Non-interference (projection of a multi-track run = the track's solo run), static-pattern hold / "
+             "idempotence, current time and globals are decided by oracles on the implementation and by the model correspondence.",
+        design="DESIGN.md §3 C07",
+        note=SCHED_NOTE + " The decomposition (non-interference) theorem is not proved yet: that clause rests on the merge oracle "
+             "(multi-track vs solo runs of the real code) and the model correspondence. PStaticPattern/PGlobals are checked against a "
+             "reference state machine in the harness.",
+        technique="Lean 4 theorem (phase order) + merge oracle + differential correspondence"),
+    "C17": dict(
+        text="Theorems: in tolerant mode no track exception ever escapes the track phase (any fault site, any number/order of "
+             "tracks), the timeline's time advances exactly one tick per tick; the failing track is removed, its notes released, and "
+             "the remaining tracks of the snapshot are still ticked; in intolerant mode the exception propagates; callback "
+             "exceptions are swallowed in both modes; a callback StopIteration ends the track.",
+        design="DESIGN.md §3 C17",
+        note=SCHED_NOTE + " 'Every other track's output is identical to a run without the failing track' is decided by a "
+             "differential oracle on the real code (with vs without the failing tracks) and by the model correspondence.",
+        technique="Lean 4 induction over the track snapshot + fault-injection differential oracle + correspondence"),
     "C02": dict(
         text="Theorems over ALL histories of the scheduler model (any number of API calls, ticks, callbacks, faults): "
              "note-ons = note-offs + pending for every (note, channel); no off without on; no sound left when no track is left or when "
